@@ -299,6 +299,13 @@ def run_case(ctx, chi, rng, n_ids, subs, tag='gen'):
         if not math.isnan(total):
             ctx.spec('C02.value_is_sum_of_individuals_plus_population', core.close(v, total), inp,
                      {'chi': v, 'spec': total})
+    pcopy = params.copy()
+    ccopy = None if cov is None else cov.copy()
+    with np.errstate(all='ignore'):
+        again = float(hll(params))
+    ctx.spec('C02.arguments_unchanged', np.array_equal(params, pcopy, equal_nan=True) and
+             (cov is None or np.array_equal(cov, ccopy)) and (again == v or (math.isnan(again) and math.isnan(v))),
+             inp, {'first': v, 'second': again})
     # the same whole numbers as floats, as integers and as a list of Python ints are the same parameters
     whole = np.where(np.abs(params) < 0.3, 0.0, np.where(params < 1.0, 1.0, 2.0))
     wv = ctx.number_types('C02.whole_number_parameters', lambda p: float(hll(p)), whole, inp)
